@@ -57,7 +57,7 @@ def run(chk, binary):
         text = gen_text(rng)
         pat = rng.choice(PATTERNS)
         flag = rng.choice(["-g", "-g", "-v"])
-        variant = rng.choice(["mark", "cut", "else", "tally", "top", "nested", "elsecut", "open", "open2", "dangling", "dot", "exbody"])
+        variant = rng.choice(["mark", "cut", "else", "tally", "top", "nested", "elsecut", "open", "open2", "dangling", "dot", "exbody", "failbody"])
         pat2 = rng.choice(PATTERNS)
         if variant == "tally":
             # the scope also edits the first line each time: the lines still to be visited move
@@ -82,6 +82,10 @@ def run(chk, binary):
         elif variant == "dot":
             # the scope repeats, on every line it visits, a change made before it (a session typed at the very start of the text)
             argv = ["-m", "ggi#<esc>", flag, pat, "-m", ".", "--end"]
+        elif variant == "failbody":
+            # a body command that fails half-way (an unknown ex command with keys behind it): the keys it did not get to are
+            # gone, they do not run on the next line that is visited
+            argv = [flag, pat, "-m", "I#<esc>", "-m", rng.choice([":nosuch<CR>x", ":nosuch<CR>dd", ":nosuch<CR>A!<esc>", ":99,1d<CR>"]), "--end"]
         elif variant == "exbody":
             # an ex command without an address in the scope works on the visited line - also when a selection was made and closed earlier
             argv = ["-m", rng.choice(["vly", "Vy", "vjy", "viwy"]), flag, pat, "-m", ":s/^/#/<CR>", "--end"]
@@ -94,7 +98,7 @@ def run(chk, binary):
         jobs.append({"args": argv, "stdin": text})
         meta.append((text, pat, flag, variant, argv, pat2))
     res = cli_map(binary, jobs)
-    dist = {"mark": 0, "cut": 0, "else": 0, "tally": 0, "top": 0, "nested": 0, "elsecut": 0, "open": 0, "open2": 0, "dangling": 0, "dot": 0, "exbody": 0, "final_newline": 0, "empty_lines": 0, "multibyte": 0, "else_taken": 0}
+    dist = {"mark": 0, "cut": 0, "else": 0, "tally": 0, "top": 0, "nested": 0, "elsecut": 0, "open": 0, "open2": 0, "dangling": 0, "dot": 0, "exbody": 0, "failbody": 0, "final_newline": 0, "empty_lines": 0, "multibyte": 0, "else_taken": 0}
     mcases = []
     mmeta = []
     for (text, pat, flag, variant, argv, pat2), (rc, out, err) in zip(meta, res):
@@ -128,7 +132,7 @@ def run(chk, binary):
             if sout != exp + "\n":
                 chk.violation("spec:-g/-v did not run on exactly the expected lines", dict(case, expected_stdout=exp + "\n"))
             continue
-        if variant in ("mark", "else", "tally", "top", "nested", "elsecut", "open", "open2", "dangling"):
+        if variant in ("mark", "else", "tally", "top", "nested", "elsecut", "open", "open2", "dangling", "failbody"):
             # every visited line gets '#' before its first non-blank character, no other line changes
             exp_lines = []
             for i, l in enumerate(lines):
@@ -215,6 +219,23 @@ def run(chk, binary):
             if starts.get(int(n_)) != int(s_):
                 chk.violation("correspondence:line start", {"stdin": text, "line": int(n_), "model_start": int(s_), "expected": starts.get(int(n_))}, concrete=False)
     chk.cov["traces_validated_against_impl"] = len(cases)
+    # ---- the text comes from a file (empty files too): the scope and its --else branch run as they do on the same text from stdin ----
+    from .. import drivers as D
+    fjobs, fmeta = [], []
+    for content in ["", "foo\n", "bar\n", "\n", "foo\nbar", "x\nfoo\n"]:
+        for argv in (["-g", "foo", "-m", "I><esc>", "--else", "-m", "iNONE<esc>", "--end"], ["-v", "foo", "-m", "iX<esc>", "--end"], ["-g", "foo", "-c", "e", "--else", "-c", "$", "--end"]):
+            for mode in ([], ["--serial"]):
+                fjobs.append({"files": [("only.txt", content.encode())], "opts": mode, "cmds": argv, "stdin": None})
+                fmeta.append((content, argv, mode))
+    fobs = D.scenarios_map(binary, fjobs)
+    sres = cli_map(binary, [{"args": argv, "stdin": content} for content, argv, mode in fmeta])
+    for (content, argv, mode), ob, sr in zip(fmeta, fobs, sres):
+        chk.count(("c13-file", content, tuple(argv), tuple(mode)), nontrivial=True)
+        dist["from_a_file"] = dist.get("from_a_file", 0) + 1
+        # (the stdin driver and the serial file driver end their output with one framing newline, the parallel one does not)
+        if ob["rc"] != sr[0] or sr[1] not in (ob["out"], ob["out"] + b"\n"):
+            chk.violation("spec:-g/-v on a text from a file differs from the same text on stdin", {"argv": ob["argv"], "file_content": content, "stdout_file": ob["out"].decode(errors="replace"),
+                          "stdout_stdin": sr[1].decode(errors="replace"), "rc": [ob["rc"], sr[0]]})
     chk.cov["input_distribution"] = dist
     chk.sample({"argv": meta[0][4], "stdin": meta[0][0], "stdout": res[0][1].decode(errors="replace")})
     chk.cov["rule"] = ("texts of 0..9 lines from 18 bodies (empty lines, indented, multi-byte, combining) with and without final newline x 20 patterns of the shared regex subset x -g/-v x three observation variants "
